@@ -6,6 +6,7 @@
 #include <thread>
 #include <set>
 #include <mutex>
+#include <deque>
 #include <memory>
 #include <cstring>
 
@@ -143,6 +144,18 @@ static void check_routes(impl::Lexicon& lex, Rng& rng, std::uint64_t inst)
          util::word_view v(exact.get(), sp.size());
          if (&lex.get_identifier(v) != &want.name()) tviol("route:unterminated-buffer:lookalike", "get_identifier of an exact-size unterminated buffer spelling \"" + sp + "\" is not the built-in's name");
       }
+      // the String overloads, given an equally spelled String node that no string pool made (a free-standing node) and another
+      // Lexicon's word: identifier, as-type, label
+      {
+         thread_local std::deque<std::u8string> bytes; thread_local std::deque<impl::String> nodes;      // per thread: some instances are checked on concurrent threads
+         bytes.emplace_back(widen(sp)); nodes.emplace_back(util::word_view(bytes.back()));
+         impl::Lexicon other;
+         for (const String* s : { static_cast<const String*>(&nodes.back()), &other.get_string(widen(sp)) }) {
+            auto& id = lex.get_identifier(*s);
+            tcount("routes_through_a_foreign_string_node");
+            if (&id != &want.name() || &lex.get_as_type(id) != &want) tviol("route:foreign-string->identifier:lookalike", "get_identifier(a String spelled \"" + sp + "\" that no pool of this Lexicon made) is not the Identifier naming the built-in");
+         }
+      }
       // near misses must NOT yield a constant
       std::string near[] = { sp + " ", " " + sp, sp.substr(0, sp.size() - 1), sp + sp, std::string(1, char(sp[0] ^ 0x20)) + sp.substr(1) };
       for (auto& nm : near) {
@@ -211,6 +224,8 @@ static void check_routes(impl::Lexicon& lex, Rng& rng, std::uint64_t inst)
             if (is_const && !(&sy.name() == &id && &sy.type() == t)) tviol("route:symbol-yields-constant-of-other-type", "get_symbol(name, type) returned a symbolic constant whose type is not the one asked for"); }
          lex.make_literal(L.int_type(), w); lex.get_label(id);
       }
+      { static constexpr impl::String free_default { u8"default" };
+        if (&lex.get_label(lex.get_identifier(free_default)) != &L.default_value()) tviol("route:foreign-string->label:default", "get_label(get_identifier(a free-standing String spelled default)) is not default_value()"); }
       if (&lex.get_label(lex.get_identifier(u8"default")) != &L.default_value()) tviol("route:identifier->label:default:after-look-alikes", "get_label(identifier \"default\") is no longer default_value() once a symbol spelled default exists in the Lexicon");
       if (&L.default_value().type() == &L.void_type()) tviol("constant:type:default_value", "default_value() is typed void");
       if (&lex.get_decltype(L.nullptr_value()) != &L.nullptr_value().type()) tviol("route:expression->decltype:nullptr:after-look-alikes", "get_decltype(nullptr_value()) is no longer nullptr_value().type()");
